@@ -357,6 +357,11 @@ impl NodeState {
             );
             return;
         };
+        if versioned_value.is_deleted() {
+            // The key is already deleted: scheduling it again would make it visible again.
+            warn!("Key `{key}` is already deleted.");
+            return;
+        }
         self.max_version += 1;
         versioned_value.version = self.max_version;
         versioned_value.status = DeletionStatusMutation::DeleteAfterTtl.into_status(Instant::now());
